@@ -32,5 +32,12 @@ func VBind(c *UDPConn, addr net.Addr) uint16 {
 	return b.number
 }
 
+// VBindPending installs a binding whose ChannelBind has been sent but not yet answered.
+func VBindPending(c *UDPConn, addr net.Addr) uint16 {
+	b := c.bindingMgr.create(addr)
+	b.setState(bindingStateRequest)
+	return b.number
+}
+
 // VNonce is the nonce the relayed socket would put into its next request.
 func (c *UDPConn) VNonce() []byte { return c.nonce() }
